@@ -247,3 +247,83 @@ pub fn run(cfg: &Cfg, rep: &mut Report) {
         }
     }
 }
+
+/// Second stage (nightly `pattern` build): escape(s) used as a `std::str::pattern::Pattern`.
+/// `str::match_indices`, `split`, `contains`, `find` with the compiled escape(s) must see exactly
+/// the occurrences of the literal s (the empty string at every char boundary, including the end).
+#[cfg(feature = "pattern")]
+pub fn run_pattern(cfg: &Cfg, rep: &mut Report) {
+    if cfg.replay.is_some() {
+        return;
+    }
+    let alphabet: Vec<char> = "\\^$.|?*+()[]{}-/aksé\n\u{10000}".chars().collect();
+    let mut strings: Vec<String> = vec![String::new()];
+    for a in &alphabet {
+        strings.push(a.to_string());
+        for b in &alphabet {
+            strings.push(format!("{}{}", a, b));
+        }
+    }
+    let mut rng = Rng::new(cfg.seed ^ 0x1818);
+    for _ in 0..cfg.scaled(if cfg.quick() { 2_000 } else { 60_000 }) {
+        let len = rng.range(3, 8);
+        let mut s = String::new();
+        for _ in 0..len {
+            s.push(*rng.pick(&alphabet));
+        }
+        strings.push(s);
+    }
+    let filler: Vec<char> = "ax.é\u{10000} ".chars().collect();
+    for (si, s) in strings.iter().enumerate() {
+        let h = fnv64(s.as_bytes());
+        if !cfg.mine(h) {
+            continue;
+        }
+        if si % 256 == 0 {
+            rep.begin(si as u64 + 1, &J::obj().set("s", s.as_str()));
+        }
+        let esc = regress::escape(s);
+        let sc: Vec<char> = s.chars().collect();
+        let mut prng = Rng::new(h ^ cfg.seed);
+        let mut hays: Vec<String> = vec![String::new(), s.clone(), s.repeat(3)];
+        for _ in 0..5 {
+            let mut t = String::new();
+            for _ in 0..prng.range(0, 3) {
+                t.push(*prng.pick(&filler));
+            }
+            t.push_str(s);
+            for _ in 0..prng.range(0, 3) {
+                t.push(*prng.pick(&filler));
+            }
+            if prng.chance(1, 2) {
+                t.push_str(s);
+            }
+            hays.push(t);
+        }
+        for fs in ["", "u", "v", "ms"] {
+            let Guarded::Ok(Ok(re)) = engine::compile(&engine::to_cps(&esc), Flags::from_str(fs), false) else { continue };
+            for t in &hays {
+                let expected = occurrences(&sc, t, &|a, b| a == b);
+                let r = engine::guarded(FUEL, || {
+                    let mi: Vec<(usize, usize)> = t.match_indices(&re).map(|(i, m)| (i, i + m.len())).collect();
+                    let pieces = t.split(&re).count();
+                    let has = t.contains(&re);
+                    let first = t.find(&re);
+                    (mi, pieces, has, first)
+                });
+                let case = || J::obj().set("s", s.as_str()).set("escaped", esc.as_str()).set("flags", fs).set("haystack", t.as_str()).set("check", "c18pat");
+                rep.eval(fnv64(format!("pat|{}|{}|{}", s, fs, t).as_bytes()), !expected.is_empty());
+                rep.inc("pattern_trait_cases");
+                match r {
+                    Guarded::Ok((mi, pieces, has, first)) => {
+                        if mi != expected || pieces != expected.len() + 1 || has != !expected.is_empty() || first != expected.first().map(|x| x.0) {
+                            rep.violation(violation("C18", "escape(s) used as a str Pattern does not see exactly the occurrences of the literal s", case(), format!("match_indices {:?}, split pieces {}, contains {}, find {:?}", mi, pieces, has, first), format!("occurrences {:?}", expected)));
+                        }
+                    }
+                    Guarded::Fuel => rep.inconclusive("fuel"),
+                    Guarded::Panic(m) => rep.violation(violation("C18", "a str method with escape(s) as Pattern panicked", case(), m, "no panic".into())),
+                }
+            }
+        }
+    }
+}
